@@ -38,15 +38,9 @@ void ops_signed_get_value(Rep& R, Op& op, i128 P, i128 a) {
   });
 }
 
-void finish(vh::Case& c, Rep& R, const std::string& desc, uint64_t salt) {
-  bool nt = R.total_ops() >= 20 && (R.n[S_RESULT_WRAPPED] > 0 || R.n[K_INVERSE] > 0);
-  if (nt) c.nontrivial(vh::hash_mix(vh::hash_str(desc), salt));
-  c.sample("{\"block\":\"" + vh::jesc(desc) + "\",\"evaluations\":" + std::to_string(R.total_ops()) + "}");
-}
-
 // ---------------------------------------------------------------------------------------- exhaustive blocks
 struct Block { Cls cls; unsigned p; long a; };
-const unsigned kExhPrimes[] = {2, 3, 5, 7, 11, 13, 17, 19, 23, 29, 31};
+const unsigned kExhPrimes[] = {2, 3, 5, 7, 11, 13, 17, 19, 23, 29, 31, 37, 41, 43, 47, 53, 59, 61, 67, 71, 73, 79, 83, 89, 97};
 std::vector<Block> make_exh_table() {
   std::vector<Block> t;
   for (unsigned p : kExhPrimes) {
@@ -63,47 +57,19 @@ std::vector<Block> make_exh_table() {
 
 void z2_ops_block(Rep& R, const std::vector<i128>& as, const std::vector<i128>& bs, const std::vector<i128>& cs) {
   Z2_field_operators op;
-  const i128 P = 2;
   const std::vector<uint64_t> primes = {2};
-  for (i128 a : as) {
-    ops_signed_get_value(R, op, P, a);
-    ops_signed_get_value(R, op, P, -a);
-    if (a < 0 || a > (i128)UINT_MAX) continue;
-    ops_unary<Z2_field_operators, unsigned int, i128>(R, op, P, primes, a, {});
-    if (a <= 1) ops_unary<Z2_field_operators, bool, i128>(R, op, P, primes, a, {});
-    for (i128 b : bs) {
-      if (b < 0 || b > (i128)UINT_MAX) continue;
-      ops_binary<Z2_field_operators, unsigned int, i128>(R, op, P, a, b);
-      if (a <= 1 && b <= 1) ops_binary<Z2_field_operators, bool, i128>(R, op, P, a, b);
-      for (i128 c : cs) {
-        if (c < 0 || c > (i128)UINT_MAX) continue;
-        ops_fused<Z2_field_operators, unsigned int, i128>(R, op, P, a, b, c, 0);   // pure logic: no word limit documented
-        if (a <= 1 && b <= 1 && c <= 1) ops_fused<Z2_field_operators, bool, i128>(R, op, P, a, b, c, 0);
-      }
-    }
-  }
-  ops_constants<Z2_field_operators, i128>(R, op, P, primes, {});
+  for (i128 a : as) { ops_signed_get_value(R, op, 2, a); if (a > 0 && a <= (i128)LONG_MAX) ops_signed_get_value(R, op, 2, -a); }
+  // pure logic: no word limit documented for the fused methods
+  ops_block<Z2_field_operators, unsigned int>(R, op, 2, primes, as, bs, cs, {}, 0, true);
+  ops_block<Z2_field_operators, bool>(R, op, 2, primes, as, bs, cs, {}, 0, true);
 }
 
 void zp_ops_block(Rep& R, Zp_field_operators<>& op, unsigned p, const std::vector<i128>& as, const std::vector<i128>& bs, const std::vector<i128>& cs) {
-  const i128 P = p;
   const std::vector<uint64_t> primes = {p};
-  for (i128 a : as) {
-    ops_signed_get_value(R, op, P, a);
-    if (a > 0 && a <= (i128)LONG_MAX) ops_signed_get_value(R, op, P, -a);
-    if (a < 0 || a > (i128)UINT_MAX) continue;
-    ops_unary<Zp_field_operators<>, unsigned int, i128>(R, op, P, primes, a, {});
-    for (i128 b : bs) {
-      if (b < 0 || b > (i128)UINT_MAX) continue;
-      ops_binary<Zp_field_operators<>, unsigned int, i128>(R, op, P, a, b);
-      for (i128 c : cs) {
-        if (c < 0 || c > (i128)UINT_MAX) continue;
-        ops_fused<Zp_field_operators<>, unsigned int, i128>(R, op, P, a, b, c, (i128)UINT_MAX);  // documented: not overflow safe
-      }
-    }
-  }
-  ops_constants<Zp_field_operators<>, i128>(R, op, P, primes, {});
-  // copies / assignment / swap keep the field
+  for (i128 a : as) { ops_signed_get_value(R, op, p, a); if (a > 0 && a <= (i128)LONG_MAX) ops_signed_get_value(R, op, p, -a); }
+  // fused methods are documented "not overflow safe": only triples whose exact value fits the 32-bit word
+  ops_block<Zp_field_operators<>, unsigned int>(R, op, p, primes, as, bs, cs, {}, (i128)UINT_MAX, true);
+  // copies / assignment keep the field
   Zp_field_operators<> cp(op), as2;
   as2 = op;
   C10_CHECK(R, K_CHARACTERISTIC, cp.get_characteristic() == p && as2.get_characteristic() == p && cp.multiply(p - 1, p - 1) == 1 % p && as2.get_inverse(p - 1) == p - 1,
@@ -124,17 +90,6 @@ void coh_zp_block(Rep& R, Field_Zp& f, unsigned p, const std::vector<i128>& xs, 
   C10_CHECK(R, K_CHARACTERISTIC, f.characteristic() == (int)p, "characteristic", "form=coh", "characteristic()=" + std::to_string(f.characteristic()));
 }
 
-template <class F, bool kBool>
-void elem_block(Rep& R, i128 P, const std::vector<uint64_t>& primes, const std::vector<i128>& as, const std::vector<i128>& bs) {
-  for (i128 a : as) {
-    elem_unary<F, kBool>(R, P, primes, a, {});
-    for (i128 b : bs) elem_binary<F, kBool>(R, P, a, b);
-  }
-  elem_constants<F>(R, P, primes, {});
-}
-
-std::vector<i128> range_vals(i128 lo, i128 hi) { std::vector<i128> v; for (i128 a = lo; a <= hi; ++a) v.push_back(a); return v; }
-
 void exh_case(vh::Case& c) {
   static const std::vector<Block> table = make_exh_table();
   if (c.k >= (long)table.size()) { c.count("skip.beyond_exhaustive_table"); return; }
@@ -146,24 +101,17 @@ void exh_case(vh::Case& c) {
   c.count(std::string("class.") + kClsName[b.cls]);
   c.count("blocks.exhaustive.p" + std::to_string(b.p));
   switch (b.cls) {
-    case Z2_ELEM: elem_block<Z2_field_element, true>(R, 2, {2}, {b.a}, window(2)); break;
+    case Z2_ELEM: elem_block<Z2_field_element, true>(R, 2, {2}, {b.a}, window(2), {}); break;
     case Z2_OPS: z2_ops_block(R, {b.a}, range_vals(0, 6), range_vals(0, 6)); break;
     case ZP_OPS: { Zp_field_operators<> op(b.p); zp_ops_block(R, op, b.p, {b.a}, range_vals(0, 3 * P), range_vals(0, 3 * P)); break; }
-    case ZP_SHARED: Shared_Zp_field_element<>::initialize(b.p); elem_block<Shared_Zp_field_element<>, false>(R, P, {b.p}, {b.a}, window(P)); break;
+    case ZP_SHARED: Shared_Zp_field_element<>::initialize(b.p); elem_block<Shared_Zp_field_element<>, false>(R, P, {b.p}, {b.a}, window(P), {}); break;
     case COH_ZP: { Field_Zp f; f.init((int)b.p); coh_zp_block(R, f, b.p, {b.a}, range_vals(0, P - 1), range_vals(0, P - 1)); break; }
   }
-  finish(c, R, desc, 0);
+  finish_block(c, R, desc, 0);
 }
 
 // ---------------------------------------------------------------------------------------- boundary-directed blocks
 const unsigned kBoundaryPrimes[] = {251, 257, 32749, 46337, 65519, 65521};
-
-std::vector<i128> reduced_boundary(i128 P, vh::Rng& r, int nrandom) {
-  std::vector<i128> v = {0, 1, 2, (P - 1) / 2, (P + 1) / 2, P - 2, P - 1};
-  for (int i = 0; i < nrandom; ++i) v.push_back((i128)r.below((uint64_t)P));
-  for (auto& x : v) x = pmod(x, P);
-  return v;
-}
 
 void directed_block(vh::Case& c, Cls cls, unsigned p, int nvals, int nfused, int ntriples, const std::string& kind) {
   vh::Rng& r = c.rng;
@@ -194,7 +142,7 @@ void directed_block(vh::Case& c, Cls cls, unsigned p, int nvals, int nfused, int
     }
     case ZP_SHARED: {
       Shared_Zp_field_element<>::initialize(p);
-      elem_block<Shared_Zp_field_element<>, false>(R, P, {p}, vals, vals);
+      elem_block<Shared_Zp_field_element<>, false>(R, P, {p}, vals, vals, {});
       for (int i = 0; i < ntriples; ++i) elem_binary<Shared_Zp_field_element<>, false>(R, P, (i128)r.below(p), (i128)(long)r.next());
       break;
     }
@@ -210,10 +158,10 @@ void directed_block(vh::Case& c, Cls cls, unsigned p, int nvals, int nfused, int
       }
       break;
     }
-    case Z2_ELEM: elem_block<Z2_field_element, true>(R, 2, {2}, vals, vals); break;
+    case Z2_ELEM: elem_block<Z2_field_element, true>(R, 2, {2}, vals, vals, {}); break;
     case Z2_OPS: z2_ops_block(R, vals, vals, red); break;
   }
-  finish(c, R, desc, salt);
+  finish_block(c, R, desc, salt);
 }
 
 void boundary_case(vh::Case& c) {
